@@ -333,6 +333,16 @@ Proof.
       apply negb_true_iff in Hrq. rewrite Hrq, Hc. reflexivity.
 Qed.
 
+(* the snapshot starts with the message's start line, byte for byte *)
+Lemma snapshot_first_line legacy o m :
+  no_cr (m_start m) = true ->
+  first_line (v_message (fst (snapshot_gen legacy o m))) = Some (m_start m).
+Proof.
+  intros Hs. destruct (snapshot_view_shape legacy o m) as (b & t & Hm & _).
+  cbv zeta in Hm. rewrite Hm. unfold first_line, head_bytes.
+  rewrite <- !app_assoc. now rewrite split_crlf_app.
+Qed.
+
 (* ---------------- what the loggers leave behind ---------------- *)
 
 Lemma set_body_id m : set_body m (m_nobody m) (m_body m) = m.
